@@ -42,7 +42,27 @@ LEVEL = {
     "technique": "static analysis: finite-domain abstract evaluation of the unwind loop against a reference table",
 }
 
-STACK_ATTR = "_exit_callbacks"
+STACK_ATTR = "_exit_callbacks"  # re-derived from ExitStack.__init__ on every run (_derive_stack_attr)
+
+
+def _derive_stack_attr(ctx) -> str:
+    """The attribute holding the registered exits: the field that ExitStack.__init__ binds to an
+    empty deque()/list (its name is free)."""
+    global STACK_ATTR
+    info = ctx.pkg.cls("contextlib.ExitStack")
+    init = info.methods.get("__init__")
+    found = []
+    for st in (own_nodes(init.node) if init is not None else []):
+        tg = st.targets[0] if isinstance(st, ast.Assign) and len(st.targets) == 1 else st.target if isinstance(st, ast.AnnAssign) else None
+        val = getattr(st, "value", None)
+        if isinstance(tg, ast.Attribute) and norm(tg.value) == "self" and (
+                (isinstance(val, ast.Call) and norm(val.func).split(".")[-1] in ("deque", "list") and not val.args)
+                or (isinstance(val, ast.List) and not val.elts)):
+            found.append(tg.attr)
+    if len(found) != 1:
+        raise AnalysisError(f"ExitStack.__init__: the container of registered exits could not be identified ({found}) (anchor moved)")
+    STACK_ATTR = found[0]
+    return STACK_ATTR
 
 
 def run(ctx) -> None:
@@ -65,6 +85,7 @@ def run(ctx) -> None:
 
 # --------------------------------------------------------------------------- R14.1
 def r14_1(ctx) -> str:
+    _derive_stack_attr(ctx)
     info = ctx.pkg.cls("contextlib.ExitStack")
     ends = {}
     for mname in ("push", "callback", "enter_context"):
@@ -259,6 +280,7 @@ def reference(n: int, outcomes: Tuple[str, ...], received: bool):
 
 
 def r14_2(ctx, end: str) -> None:
+    _derive_stack_attr(ctx)
     u = ctx.unit("contextlib.ExitStack.__aexit__")
     cfg = cfg_of(u)
     params = u.param_names()
@@ -404,6 +426,7 @@ class _EnterOps:
 
 
 def r14_4(ctx) -> None:
+    _derive_stack_attr(ctx)
     u = ctx.unit("contextlib.ExitStack.enter_context")
     cfg = cfg_of(u)
     me, cm = u.param_names()[0], u.param_names()[1]
@@ -454,6 +477,7 @@ def _callback_runner(ctx):
 
 
 def r14_5(ctx) -> None:
+    _derive_stack_attr(ctx)
     u = _callback_runner(ctx)
     if u is None:
         ctx.fail("R14.5", ctx.unit("contextlib.ExitStack.callback"), "callback",
@@ -537,6 +561,7 @@ class _PopAllOps:
 
 
 def r14_6(ctx) -> None:
+    _derive_stack_attr(ctx)
     u = ctx.unit("contextlib.ExitStack.pop_all")
     cfg = cfg_of(u)
     env = {u.param_names()[0]: "SELF", f"@f:SELF.{STACK_ATTR}": "OLD", f"@f:NEW.{STACK_ATTR}": ("fresh", 0, ())}
